@@ -203,12 +203,12 @@ def main(argv=None):
                     malfunctions.append(
                         f"{c.name}: reachability witness {rt['args']} returns OK under the "
                         f"environment model but {rep.get('code', rep.get('error'))} on the real code")
-        elif rt['status'] in ('CONFIRMED', 'PRE_UNSAT'):
+        elif rt['status'] in ('CONFIRMED', 'PRE_UNSAT') and rm['status'] != 'REFUTED':
             malfunctions.append(f"{c.name}: vacuous harness (twin {rt['status']})")
         elif rt['status'] == 'REFUTED':
             # the twin hit an exception: the main condition will report it too
             pass
-        elif rt['status'] == 'ERROR':
+        elif rt['status'] == 'ERROR' and rm['status'] != 'REFUTED':
             malfunctions.append(f"{c.name}: twin engine error: {rt.get('message', '')[:300]}")
         # -- main
         if rm['status'] == 'CONFIRMED':
